@@ -244,6 +244,21 @@ def run(chk):
             continue
         for _ in check_exactly_once(chk, font, cfg, fmt, srcs, f"lattice {k}", replay):
             pass
+    # every kind of reuse transform, solid fills, in glyf and the three COLRv0 flavours
+    for k, (label, glyphs) in enumerate(S.reuse_fill_grid(solid_only=True)):
+        for fmt in (["glyf", "glyf_colr_0", "cff_colr_0", "cff2_colr_0"][k % 4], "glyf"):
+            cfg = build.base_config(color_format=fmt, keep_glyph_names=True, clip_to_viewbox=False, reuse_tolerance=0.1, **S.LATTICE_CONFIG)
+            srcs = CC.sources_from(glyphs)
+            replay = {"kind": "reuse-grid", "label": label, "format": fmt, "svgs": [x.svg_text for x in srcs]}
+            chk.case(key=("reuse-grid", label, fmt), nontrivial=True)
+            chk.traces_validated += 1
+            try:
+                _, font = build.build(cfg, srcs, already_pico=True)
+            except Exception as e:
+                chk.violation(f"valid sources fail to build ({fmt}): {type(e).__name__}: {str(e)[:160]}", replay)
+                continue
+            for _ in check_exactly_once(chk, font, cfg, fmt, srcs, f"reuse grid [{label}]", replay):
+                pass
     chk.assumptions += ["a layer 'places' a source outline when their sampled overlap is >= 60% (one-to-one matching)"]
 
 
